@@ -1649,7 +1649,7 @@ func TestVerifC06(t *testing.T) {
 		sc := sc
 		t.Run("corpus-"+sc.name, func(t *testing.T) { c06RunScenario(t, rec, "corpus", sc, false, true) })
 	}
-	nRandom := vBudget(6, 80)
+	nRandom := vBudget(5, 80)
 	for i := 0; i < nRandom; i++ {
 		sc := c06Scenario{name: fmt.Sprintf("random-%d-%d", vSeed(), i), plan: c06Plan(rng, 5+rng.Intn(6), 3)}
 		t.Run(sc.name, func(t *testing.T) { c06RunScenario(t, rec, "random", sc, false, true) })
